@@ -131,6 +131,35 @@ fn build_random(seed: u64, nblocks: usize, ntx: usize, epoch_len: u64) -> Result
     Ok(scenario_json(&w, epoch_len))
 }
 
+/// directed history: a reorganisation between two branches that split BEFORE an epoch boundary while both tips lie in the
+/// same epoch number (the epoch record of the new tip differs from the old one only in the block that ended the previous
+/// epoch), followed by a second one back across the next boundary; a few commits on both branches
+fn build_epochfork(seed: u64, epoch_len: u64) -> Result<Value, String> {
+    let mut rng = Rng::new(seed);
+    let cells = 6;
+    let c = consensus(&params(epoch_len, cells));
+    let defs = Universe::random_defs(&mut rng, cells, 8);
+    let uni = Universe::concretize(&c, defs);
+    let mut w = World::new(uni, Forge::new(&c));
+    let l = epoch_len as usize;
+    // branch A: 1 .. l+1 (tip = second block of epoch 1)
+    let mut a = 0usize;
+    for _ in 0..=l {
+        a = w.mint(a, &[], &[], false)?;
+    }
+    // branch B forks two blocks below the last block of epoch 0 and overtakes A inside epoch 1
+    let fork = w.chain_ids(a)[l.saturating_sub(2)];
+    let mut b = fork;
+    while w.blocks[b].num <= w.blocks[a].num {
+        b = w.mint(b, &[], &[], false)?;
+    }
+    // A comes back: grows past B into epoch 2
+    while w.blocks[a].num <= w.blocks[b].num + 1 {
+        a = w.mint(a, &[], &[], false)?;
+    }
+    Ok(scenario_json(&w, epoch_len))
+}
+
 // ---------------------------------------------------------------------------------------------- children
 
 struct Scenario {
@@ -275,6 +304,8 @@ fn main() {
             let r = if let Some(t) = opt(&args, "--tree") {
                 let v: Value = serde_json::from_str(&std::fs::read_to_string(t).unwrap()).unwrap();
                 build_tree(&v["tree"], Universe::defs_from_json(&v["universe"]), epoch_len, opt_u64(&args, "--prelude", 2) as usize)
+            } else if opt(&args, "--directed") == Some("epochfork") {
+                build_epochfork(opt_u64(&args, "--seed", 1), epoch_len)
             } else {
                 build_random(opt_u64(&args, "--seed", 1), opt_u64(&args, "--blocks", 14) as usize, opt_u64(&args, "--txs", 16) as usize, epoch_len)
             };
